@@ -34,8 +34,16 @@ def one(meta):
         r = subprocess.run("git clone -q --shared /repo %s/r && cd %s/r && git checkout -q %s && git apply --whitespace=nowarn %s && rm -rf .git" % (d, d, commit, os.path.join(os.path.dirname(meta), "patch.diff")), shell=True, capture_output=True, text=True)
         if r.returncode != 0:
             return meta, None
-        new = alarms(d + "/r") - base_alarms(commit)
-        rules = sorted(set(k.split(" :: ")[0] for k in new))
+        got, base = alarms(d + "/r"), base_alarms(commit)
+        new = got - base
+        from collections import Counter
+        import re
+        # a construct that is merely renumbered (#2 -> #3) is not a new alarm: compare the
+        # constructs without their ordinals, as multisets
+        norm = lambda k: re.sub(r"#\d+", "#", k)
+        cg = Counter(norm(k) for k in got)
+        cb = Counter(norm(k) for k in base)
+        rules = sorted(set(k.split(" :: ")[0] for k in new if cg[norm(k)] > cb.get(norm(k), 0)))
         if not rules and m.get("note_rules"):
             # the reporting rule also fails on the (unrepaired) commit the patch applies to: the
             # recorded rules are those of the equivalent current-tree variant named in note_rules
